@@ -107,6 +107,11 @@ func householderTridiagonalization(inSitu *InSitu, epsilon float64) (Matrix, Mat
       s.Add(s, t)
     }
     s.Sqrt(s)
+    // the reflector maps the column to +||x|| e_1, unless the column is
+    // already reduced (beta = 0, identity) and keeps its sign
+    if beta.GetFloat64() == 0.0 && A.At(k+1,k).GetFloat64() < 0.0 {
+      s.Neg(s)
+    }
 
     A.At(k+1,k+0).Set(s)
     A.At(k+0,k+1).Set(s)
